@@ -14,7 +14,7 @@ RULE = ("pairs of blackbox-free lint-clean circuits (copy / self / reference-sid
         "unrelated sharing io names) x startpoint and endpoint subsets; distinct = canonical pair + subsets; "
         "non-trivial = at least one compared endpoint depends on a tied startpoint")
 PROBES = ["single_endpoint", "untied_startpoint", "pair:restructured", "pair:mutated", "pair:self", "pair:copy",
-          "pair:unrelated", "pair:cut", "differs_rarely", "equivalent", "different", "repeated_call_same_objects"]
+          "pair:unrelated", "pair:cut", "differs_rarely", "equivalent", "different", "repeated_call_same_objects", "no_common_endpoint", "tie_nothing"]
 ASSUMPTIONS = ["<= 5 shared + <= 2 private startpoints per side, <= 12 gates per circuit",
                "node names do not start with c0_/c1_/dif_ and are not 'sat' (default naming)"]
 
@@ -146,6 +146,8 @@ def gen(rng, tier):
     sps = eps = None
     if sp_shared and rng.random() < 0.4:
         sps = rng.sample(sp_shared, rng.randint(1, len(sp_shared)))
+    elif rng.random() < 0.08:
+        sps = []          # an explicit choice: tie nothing, every startpoint of either copy is independent
     r = rng.random()
     if ep_shared and r < 0.3:
         eps = [rng.choice(ep_shared)]
@@ -175,12 +177,12 @@ def run(case, ctx):
         if any(_bad_name(n) for n in net["nodes"]):
             raise Skip("reserved names")
     sp0, sp1 = set(ref.startpoints(n0)), set(ref.startpoints(n1))
-    S = set(case["startpoints"]) if case["startpoints"] else (sp0 & sp1)
+    S = set(case["startpoints"]) if case["startpoints"] is not None else (sp0 & sp1)
     E = set(case["endpoints"]) if case["endpoints"] else (set(ref.outputs(n0)) & set(ref.outputs(n1)))
     if not S <= (sp0 & sp1) or not E <= (set(n0["nodes"]) & set(n1["nodes"])):
         raise Skip("subset not shared")
     if not E:
-        raise Skip("no endpoints to compare")
+        ctx.probe("no_common_endpoint")      # nothing is compared: `sat` must be 0 for every valuation
     if len(S) + len(sp0 - S) + len(sp1 - S) > 10:
         raise Skip("too many free signals")
     if (set(n0["nodes"]) | set(n1["nodes"])) & (S - sp0 - sp1):
@@ -196,8 +198,10 @@ def run(case, ctx):
         ctx.probe("untied_startpoint")
     kw = {}
     box = list if case.get("as_list") else set
-    if case["startpoints"]:
+    if case["startpoints"] is not None:
         kw["startpoints"] = box(case["startpoints"])
+        if not case["startpoints"]:
+            ctx.probe("tie_nothing")
     if case["endpoints"]:
         kw["endpoints"] = box(case["endpoints"])
     b0, b1 = ref.snapshot(c0), (ref.snapshot(c1) if c1 is not None else None)
